@@ -552,8 +552,8 @@ def shard(ctx):
             raise core.HarnessError("generator produced an invalid case (%s): %s" % (why, json.dumps(case)[:2000]))
         cases.append(case)
 
+    ctx.hyp(ext_case(), add, ctx.per_shard(320, 6000), "ext")  # cheap, first
     ctx.hyp(import_case(), add, ctx.per_shard(320, 8000), "import")
-    ctx.hyp(ext_case(), add, ctx.per_shard(320, 6000), "ext")
     ctx.excluded_known += G.EXCLUDED[0]
     blocked = 0
     for i in range(0, len(cases), BATCH):
